@@ -149,6 +149,14 @@ def tag_arguments_with_signature(
         str, tuple[Any, ir.schemas.Parameter | ir.schemas.AttributeParameter]
     ] = {}
 
+    has_variadic = any(param.is_param() and param.variadic for param in op_signature.params)
+    if not has_variadic and len(args) > len(op_signature.params):
+        # Same as a plain Python call: surplus positional arguments are an error, not dropped
+        raise TypeError(
+            f"Too many positional arguments: expected at most {len(op_signature.params)}, "
+            f"got {len(args)}"
+        )
+
     for i, param in enumerate(op_signature.params):
         is_variadic = param.is_param() and param.variadic
 
@@ -158,6 +166,8 @@ def tag_arguments_with_signature(
             args = []
             continue
         if i < len(args):
+            if param.name in kwargs:
+                raise TypeError(f"Got multiple values for argument '{param.name}'")
             tagged_args.append((args[i], param))
         elif param.name in kwargs:
             tagged_kwargs[param.name] = (kwargs[param.name], param)
